@@ -18,7 +18,7 @@
 
 use std::fmt;
 
-pub const SLOTS: usize = 4;
+pub const SLOTS: usize = 8;
 
 /// Upper bound applied to every requested capacity (1..=SLOTS).
 pub static mut MODEL_CAPACITY: usize = SLOTS;
@@ -50,7 +50,7 @@ impl<T> RingBuffer<T> {
             if capacity < MODEL_CAPACITY { capacity } else { MODEL_CAPACITY }
         };
         let ring = Box::into_raw(Box::new(Ring {
-            slots: [None, None, None, None],
+            slots: [None, None, None, None, None, None, None, None],
             head: 0,
             len: 0,
             capacity: cap,
@@ -97,6 +97,36 @@ impl<T> Producer<T> {
     pub fn slots(&self) -> usize {
         unsafe { (*self.ring).capacity - (*self.ring).len }
     }
+    /// Model-only: number of queued values.
+    pub fn model_len(&self) -> usize {
+        unsafe { (*self.ring).len }
+    }
+    /// Model-only: the i-th oldest queued value.
+    pub fn model_peek(&self, i: usize) -> Option<&T> {
+        unsafe {
+            let r = &*self.ring;
+            if i < r.len { r.slots[(r.head + i) % SLOTS].as_ref() } else { None }
+        }
+    }
+    /// Model-only: change the capacity (harness observation: "if the ring had room").
+    pub fn model_set_capacity(&mut self, cap: usize) {
+        unsafe { (*self.ring).capacity = if cap < SLOTS { cap } else { SLOTS } }
+    }
+    /// Model-only: discard the oldest queued value without going through the consumer.
+    pub fn model_discard_front(&mut self) {
+        unsafe {
+            let r = &mut *self.ring;
+            if r.len > 0 {
+                r.slots[r.head] = None;
+                r.head = (r.head + 1) % SLOTS;
+                r.len -= 1;
+            }
+        }
+    }
+    /// Model-only: is the consumer end still alive?
+    pub fn model_consumer_alive(&self) -> bool {
+        unsafe { (*self.ring).consumer_alive }
+    }
     pub fn is_full(&self) -> bool {
         self.slots() == 0
     }
@@ -129,6 +159,21 @@ impl<T> Consumer<T> {
     }
     pub fn is_empty(&self) -> bool {
         self.slots() == 0
+    }
+    /// Model-only: number of queued values (no yield).
+    pub fn model_len(&self) -> usize {
+        unsafe { (*self.ring).len }
+    }
+    /// Model-only: the i-th oldest queued value (no yield).
+    pub fn model_peek(&self, i: usize) -> Option<&T> {
+        unsafe {
+            let r = &*self.ring;
+            if i < r.len { r.slots[(r.head + i) % SLOTS].as_ref() } else { None }
+        }
+    }
+    /// Model-only: is the producer end still alive (no yield)?
+    pub fn model_producer_alive(&self) -> bool {
+        unsafe { (*self.ring).producer_alive }
     }
     pub fn is_abandoned(&self) -> bool {
         unsafe {
